@@ -387,18 +387,31 @@ impl ClusterHandler for GenCommHandler<'_> {
                     return Err(ErrorCode::NocInvalidFabricIndex.into());
                 }
 
-                let pase_sess_id =
-                    matches!(sess.get_session_mode(), SessionMode::Pase { .. }).then(|| sess.id());
+                // The session this request arrived on must survive the expiry long enough for
+                // the response to go out: a PASE session (all of which the expiry drops), or an
+                // operational session on the fabric the expiry is about to roll back.
+                let keep_sess_id =
+                    (!matches!(sess.get_session_mode(), SessionMode::PlainText)).then(|| sess.id());
 
                 removed_fabric = state.failsafe.expire(
                     &mut state.fabrics,
                     &mut state.sessions,
-                    pase_sess_id,
+                    keep_sess_id,
                     ctx.networks(),
                     ctx.kv(),
                     notify_mdns,
                     notify_change,
                 )?;
+
+                // The resumption records of a fabric the rollback dropped go with it
+                #[cfg(feature = "case-resumption")]
+                if let Some(fab_idx) = removed_fabric {
+                    state.resumption.remove_for_fabric(fab_idx);
+                    ctx.exchange()
+                        .matter()
+                        .transport()
+                        .notify_resumption_dirty();
+                }
 
                 Ok(())
             }))?
